@@ -1118,7 +1118,7 @@ func c14trigger(mode byte) (sent []byte, retagged string) {
 	return sent, id[:11] + "20"
 }
 
-const c14wait = 3 * time.Second
+var c14wait = 3 * time.Second // raised for the serial second look at cases that looked like time-outs
 
 // handshake through a rig in standby: trigger, ACT, CFG.  Returns the classification in the
 // same canonical form as the export path.
@@ -1224,6 +1224,20 @@ func (c *ctx) c14pipeHandshakes() {
 		k, a, g, cn, tc := c.c14pipeHandshake(ins[i], rngs[i])
 		out[i] = res{k, cn, a, g, tc}
 	})
+	// a case in which nothing at all reached the client although a confirmed handshake with a CFG was fed
+	// may just have been starved (16 relays at once on a loaded machine): look again, alone, with
+	// four times the patience, and judge that run
+	retried := 0
+	for i, in := range ins {
+		if len(out[i].tc) == 0 && in.act != nil && c14val(in.act.confirm, false) && in.cfg != nil && retried < 40 {
+			retried++
+			c14wait = 12 * time.Second
+			k, a, g, cn, tc := c.c14pipeHandshake(in, rand.New(rand.NewSource(int64(i))))
+			c14wait = 3 * time.Second
+			out[i] = res{k, cn, a, g, tc}
+		}
+	}
+	c.stats["pipe-hs:looked-again-alone"] += retried
 	for i, in := range ins {
 		c.c14checkHs(in, out[i].kind, out[i].act, out[i].cfg, "pipe-handshake")
 		if in.act != nil {
